@@ -134,8 +134,8 @@ theorem Rep.assign {K : PCtx} {exitJ : Nat} (wf : K.WFS exitJ) {σ σ' : X.St} {
       by_cases hmn : m = n
       · subst hmn; exact absurd hrd (readName_write_noarr K.xc σ σ' m w r hw)
       · rw [readName_write_other K.xc σ σ' n m w hw hmn] at hrd
-        obtain ⟨id, a', hid, hloc', hlt', hv'⟩ := hr.aptr m r hrd
-        refine ⟨id, a', hid, hloc', hlt', ?_⟩
+        obtain ⟨a', hloc', hlt', hv'⟩ := hr.aptr m r hrd
+        refine ⟨a', hloc', hlt', ?_⟩
         rw [Mem.read_write_other _ _ _ _ (fun e => hmn (wf.loc_inj m n a' hloc' (by rw [← e]; exact hloc)))]
         exact hv'
     acells := by
@@ -264,8 +264,8 @@ theorem Rep.assignSub {K : PCtx} (wf : K.WF) {σ : X.St} {mem : Mem} {id : Nat} 
     depth := hr.depth
     aptr := by
       intro n r hrd
-      obtain ⟨id', a, hid, hloc, hlt, hv⟩ := hr.aptr n r hrd
-      exact ⟨id', a, hid, hloc, hlt, by rw [hother a (wf.loc_na n a hloc)]; exact hv⟩
+      obtain ⟨a, hloc, hlt, hv⟩ := hr.aptr n r hrd
+      exact ⟨a, hloc, hlt, by rw [hother a (wf.loc_na n a hloc)]; exact hv⟩
     acells := by
       intro id' cells' hc'
       have hc'' : (σ.arrays.setIfInBounds id (cells.setIfInBounds iv.toInt.toNat (some w)))[id']? = some cells' := hc'
@@ -405,7 +405,7 @@ theorem noCallA_annotate (ρ : String → Option Word) : ∀ (e : X.Expr), pureE
   | .num _, _ => by simp [annotate, noCallA]
   | .bool _, _ => by simp [annotate, noCallA]
   | .name _, _ => by simp [annotate, noCallA]
-  | .str _, h => by simp [pureE] at h
+  | .str _, _ => by simp [annotate, noCallA]
   | .sub _ i, h => by simp only [pureE] at h; simp [annotate, noCallA, noCallA_annotate ρ i h]
   | .call _ _, h => by simp [pureE] at h
   | .syscall _ _, h => by simp [pureE] at h
